@@ -183,6 +183,9 @@ func smtInt(s string) (*big.Int, bool) {
 
 // goLiteral renders the model value of an input of a scalar type; ok=false when not representable.
 func (eng *Engine) goLiteral(e *Exec, t *Term, ty types.Type, model map[string]string, qual types.Qualifier) (string, bool) {
+	if b, ok := ty.Underlying().(*types.Basic); ok && b.Info()&types.IsString != 0 {
+		return eng.stringLiteral(e, t, ty, model, qual)
+	}
 	switch u := ty.Underlying().(type) {
 	case *types.Basic:
 		val, ok := model[t.name]
@@ -205,6 +208,61 @@ func (eng *Engine) goLiteral(e *Exec, t *Term, ty types.Type, model map[string]s
 			}
 			return fmt.Sprintf("%s(%s)", types.TypeString(ty, qual), lit), true
 		}
+	case *types.Pointer:
+		in := eng.inputFor(e, t)
+		if in == nil || in.Pointee == nil || t.kind != kVar {
+			return "", false
+		}
+		ref, ok := smtInt(model[t.name])
+		if !ok {
+			return "", false
+		}
+		if ref.Sign() == 0 {
+			return "(" + types.TypeString(ty, qual) + ")(nil)", true
+		}
+		l, ok := eng.goLiteral(e, in.Pointee, u.Elem(), model, qual)
+		if !ok {
+			return "", false
+		}
+		return "&" + l, true
+	case *types.Slice:
+		in := eng.inputFor(e, t)
+		s := strip(t)
+		if in == nil || len(in.Elems) == 0 || s.kind != kApp || len(s.args) != 4 {
+			return "", false
+		}
+		get := func(a *Term) (*big.Int, bool) {
+			if a.kind != kVar {
+				return nil, false
+			}
+			return smtInt(model[a.name])
+		}
+		base, ok0 := get(s.args[0])
+		ln, ok1 := get(s.args[2])
+		cp, ok2 := get(s.args[3])
+		if !ok0 || !ok1 || !ok2 || ln.Sign() < 0 || !ln.IsInt64() || ln.Int64() > 4096 {
+			return "", false
+		}
+		ts := types.TypeString(ty, qual)
+		if base.Sign() == 0 && ln.Sign() == 0 {
+			return ts + "(nil)", true
+		}
+		capv := ln.Int64()
+		if cp.IsInt64() && cp.Int64() > capv && cp.Int64() <= 8192 {
+			capv = cp.Int64()
+		}
+		var sb strings.Builder
+		fmt.Fprintf(&sb, "func() %s { s := make(%s, %d, %d)", ts, ts, ln.Int64(), capv)
+		for k := 0; k < int(ln.Int64()) && k < len(in.Elems); k++ {
+			fake := map[string]string{in.Elems[k].name: model[in.Elems[k].name]}
+			l, ok := eng.goLiteral(e, in.Elems[k], u.Elem(), fake, qual)
+			if !ok {
+				return "", false
+			}
+			fmt.Fprintf(&sb, "; s[%d] = %s", k, l)
+		}
+		sb.WriteString("; return s }()")
+		return sb.String(), true
 	case *types.Struct:
 		s := strip(t)
 		if s.kind != kApp || !strings.HasPrefix(s.op, "mk-") {
@@ -214,7 +272,7 @@ func (eng *Engine) goLiteral(e *Exec, t *Term, ty types.Type, model map[string]s
 		for i := 0; i < u.NumFields(); i++ {
 			l, ok := eng.goLiteral(e, s.args[i], u.Field(i).Type(), model, qual)
 			if !ok {
-				return "", false
+				continue // left at its zero value: the replay may then fail to reproduce, it cannot mis-report
 			}
 			if u.Field(i).Name() == "_" {
 				continue
@@ -224,6 +282,38 @@ func (eng *Engine) goLiteral(e *Exec, t *Term, ty types.Type, model map[string]s
 		return types.TypeString(ty, qual) + "{" + strings.Join(parts, ", ") + "}", true
 	}
 	return "", false
+}
+
+func (eng *Engine) stringLiteral(e *Exec, t *Term, ty types.Type, model map[string]string, qual types.Qualifier) (string, bool) {
+	in := eng.inputFor(e, t)
+	if in == nil || in.LenVar == nil {
+		return "", false
+	}
+	ln, ok := smtInt(model[in.LenVar.name])
+	if !ok || ln.Sign() < 0 || !ln.IsInt64() || ln.Int64() > 4096 {
+		return "", false
+	}
+	var bs []string
+	for k := 0; k < int(ln.Int64()); k++ {
+		b := big.NewInt(0)
+		if k < len(in.Elems) {
+			if v, ok := smtInt(model[in.Elems[k].name]); ok {
+				b = v
+			}
+		}
+		bs = append(bs, b.String())
+	}
+	return fmt.Sprintf("%s(string([]byte{%s}))", types.TypeString(ty, qual), strings.Join(bs, ", ")), true
+}
+
+// inputFor: the input whose symbolic value is t.
+func (eng *Engine) inputFor(e *Exec, t *Term) *inputVar {
+	for i := range e.inputs {
+		if e.inputs[i].T == t {
+			return &e.inputs[i]
+		}
+	}
+	return nil
 }
 
 // fpModelToGo converts "(fp #b0 #b... #b...)" / "(_ NaN 11 53)" etc. to a Go expression.
@@ -320,9 +410,7 @@ func (eng *Engine) genReplayTest(fr *FuncResult, or *OblResult) (string, string)
 		}
 		return p.Name()
 	}
-	if fn.Signature.Recv() != nil {
-		return "", "methods with heap receivers are not replayed yet"
-	}
+	recv := fn.Signature.Recv() != nil
 	var argLits []string
 	var argNames []string
 	for i, in := range e.inputs {
@@ -347,6 +435,12 @@ func (eng *Engine) genReplayTest(fr *FuncResult, or *OblResult) (string, string)
 		resNames = append(resNames, fmt.Sprintf("r%d", i))
 	}
 	call := fn.Name() + "(" + strings.Join(argNames, ", ") + ")"
+	if recv {
+		if len(argNames) == 0 {
+			return "", "receiver not modelled"
+		}
+		call = argNames[0] + "." + fn.Name() + "(" + strings.Join(argNames[1:], ", ") + ")"
+	}
 	sb.WriteString("\tpanicked := false\n")
 	for _, r := range resNames {
 		_ = r
